@@ -92,6 +92,18 @@ func cmdConc(args []string) int {
 	blankP := rec.project(nil, nil)
 	for i := 0; i < *count; i++ {
 		seed := *from + int64(i)
+		scenDone := make(chan struct{})
+		go func(i int) {
+			select {
+			case <-scenDone:
+			case <-time.After(90 * time.Second):
+				emit(concLine{Tr: int(seed), N: 9999, Ev: "hang", Procs: runtime.GOMAXPROCS(0), Pre: blankP, St: blankP, SMPre: emptySM(), SMSt: emptySM(), Note: "a concurrent scenario made no progress for 90 s"})
+				w.Flush()
+				syscall.Dup2(realOut, 1)
+				fmt.Fprintf(os.NewFile(uintptr(realOut), "stdout"), "{\"scenarios\":%d,\"lines\":%d,\"hung\":1}\n", i, lines)
+				os.Exit(0)
+			}
+		}(i)
 		r := rand.New(rand.NewSource(seed*131 + 3))
 		n := 2 + r.Intn(9)
 		nline := 0
@@ -227,6 +239,10 @@ func cmdConc(args []string) int {
 			case len(free) >= 1 && r.Intn(2) == 0: // the last seats go
 				opA = concOp{Op: "reserve", ID: idA, Seat: -1, Chips: 4}
 				opB = concOp{Op: "reserve", ID: idB, Seat: -1, Chips: 5}
+			case len(seated) > 1 && r.Intn(2) == 0: // an earlier-seated player departs while a later-seated one re-buys
+				opA = concOp{Op: "leave", IDs: []string{seated0(st0)}}
+				opB = concOp{Op: "reserve", ID: seatedLast(st0), Seat: -1, Chips: 6}
+				point = "members.remove.mid"
 			case len(seated) > 0 && r.Intn(2) == 0: // a departure against a re-buy of the same player
 				x := seated[r.Intn(len(seated))]
 				opA = concOp{Op: "leave", IDs: []string{x}}
@@ -439,6 +455,7 @@ func cmdConc(args []string) int {
 			d2.dead = true
 			d2.hmu.Unlock()
 		}
+		close(scenDone)
 	}
 	w.Flush()
 	f.Close()
@@ -446,3 +463,6 @@ func cmdConc(args []string) int {
 	fmt.Fprintf(os.NewFile(uintptr(realOut), "stdout"), "{\"scenarios\":%d,\"lines\":%d}\n", *count, lines)
 	return 0
 }
+
+func seated0(st PState) string    { return st.Players[0].ID }
+func seatedLast(st PState) string { return st.Players[len(st.Players)-1].ID }
